@@ -86,9 +86,14 @@ func (m *vFSC54) twoDevices() {
 	var devs []uint64
 	for i, d := range []string{"xa", "xb"} {
 		m.fail(os.Mkdir(m.full(d), 0o755))
-		m.fail(unix.Mount("none", m.full(d), "tmpfs", 0, "size=1m"))
-		m.mounts = append(m.mounts, m.full(d))
 		m.ents[d] = &vEntC54{Kind: 'D'}
+		if err := unix.Mount("none", m.full(d), "tmpfs", 0, "size=1m"); err != nil {
+			// the probe succeeded but this mount did not (mount limit, namespace change): go on
+			// with plain directories on the one device, the case is then an ordinary one
+			m.flags["tmpfs-mount-failed-later"] = true
+		} else {
+			m.mounts = append(m.mounts, m.full(d))
+		}
 		m.nextIno++
 		ino := m.nextIno
 		m.size[ino] = 300 + 1000*i + rapid.IntRange(0, 500).Draw(m.t, "devsize")
